@@ -9,6 +9,23 @@ from . import env
 from .runner import Result
 
 
+def _failed_loads_first(res):
+    from io import BytesIO
+    import rv.api as api
+    good = api.Project()
+    good.new_module(api.m.MetaModule).project.new_module(api.m.Amplifier)
+    raw = good.read()
+    bad_inner = raw.replace(b"Amplifier\0", b"Amplifiex\0")
+    n = 0
+    for arg in ("/nonexistent/rvmon-missing.sunvox", BytesIO(b"not a container at all"), BytesIO(raw[:len(raw) // 2]), BytesIO(bad_inner), BytesIO(b"SVOX\0\0\0\0VERS\x04\0\0\0\x01"),
+                BytesIO(b"")):
+        try:
+            api.read_sunvox_file(arg)
+        except BaseException:  # noqa - whatever it is, the application caught it and moved on
+            n += 1
+    res.count("failed_loads_before_the_workload", n)
+
+
 def main():
     check, spec_path, out_path = sys.argv[1:4]
     with open(spec_path) as f:
@@ -33,6 +50,10 @@ def main():
         res.inconclusive.append(str(e))
     else:
         mod = importlib.import_module(f"rvmon.checks.{check.lower()}")
+        if getattr(mod, "FAILED_LOADS_FIRST", True) and (spec.get("shard", 0) if isinstance(spec.get("shard", 0), int) else 0) % 2 == 1:
+            # Process history: in every second shard the application has already tried - and failed - to load a few things
+            # (a missing file, garbage, a truncated file, a file with a broken nested container) before the workload starts.
+            _failed_loads_first(res)
         try:
             mod.run_shard(spec, res)
         except Exception as e:
